@@ -175,10 +175,11 @@ class Ctx:
             print(f"DRIFT property={self.pid} {d}")
         for kid, v in self.known_hits.items():
             print(f"KNOWN-FINDING: property={self.pid} {kid}: {v['entry']['what']} (hit {v['n']}x)")
-        for v in self.violations:
-            print(f"VIOLATION property={self.pid} replay={v["path"]}")
-            print(f"  signature={json.dumps(v['sig'], default=jdefault)} count={v['n']}")
-            print(f"  detail={v['detail'][:600]}")
+        for i, v in enumerate(self.violations):
+            print(f"VIOLATION property={self.pid} replay={v['path']}")
+            if i < 12:
+                print(f"  signature={json.dumps(v['sig'], default=jdefault)} count={v['n']}")
+                print(f"  detail={v['detail'][:600]}")
         print(
             f"[{self.pid}/{self.tier}] states={self.states} transitions={self.transitions} "
             f"impl_runs={max(self.evaluations, self.traces)} nontrivial={len(self.nontrivial)} "
